@@ -3544,6 +3544,112 @@ def rule_min_layers(ck, facts, nfield):
           fn.file, doms[-1].get("l"))
 
 
+def rule_min_search(ck, facts):
+    """strict-minimum search `if(v(j) < m && ...) { idx = j; m = v(j); }` followed by an assertion on
+    idx: the initial bound of m must be strictly greater than every value v can take, otherwise an
+    element attaining the bound can never be chosen and - if it is the only candidate - idx keeps its
+    sentinel and the assertion aborts.  Bounds are decided for v = G.degree(j) of an Adjacency::Graph
+    member: G.degree(j) <= G.degree() (the maximum, attained) <= number of image nodes (attained by a
+    complete graph, e.g. a single cell, since the neighbour graph contains the cell itself)."""
+    R = "E13.min-search-initial-bound"
+    cls_fns = [f for f in facts.functions if "::Worker<" not in f.cls and re.search(r"DomainAssembler<", f.cls) and f.body is not None]
+    by_name = {}
+    for f in cls_fns:
+        by_name.setdefault(f.name, f)
+
+    def square(G):
+        """G = Graph(injectify*, this->A, this->B) with B = Graph(transpose, this->A): domain == image"""
+        cons = {}
+        for f in cls_fns:
+            for n in f.nodes():
+                if n.get("k") == "OpCall" and n.get("op") == "=" and len(n.get("a", [])) == 2 and this_field(n["a"][0]):
+                    r = strip(n["a"][1])
+                    if r.get("k") in ("Construct", "TempObj"):
+                        cons.setdefault(this_field(n["a"][0]), []).append(r)
+        gs = cons.get(G, [])
+        if len(gs) != 1 or len(gs[0].get("a", [])) != 3 or "injectify" not in render(gs[0]["a"][0]):
+            return False
+        A, B = this_field(gs[0]["a"][1]), this_field(gs[0]["a"][2])
+        bs = cons.get(B, [])
+        return A is not None and len(bs) == 1 and len(bs[0].get("a", [])) == 2 and "transpose" in render(bs[0]["a"][0]) and this_field(bs[0]["a"][1]) == A
+    for f in cls_fns:
+        fx = FX(f)
+        inits = single_def_inits(f)
+
+        def res(e, hops=0):
+            e = strip(e)
+            while e.get("k") == "Ref" and e.get("dk") == "local" and e.get("d") in inits and hops < 4:
+                e = strip(inits[e["d"]])
+                hops += 1
+            return e
+        for iff in f.nodes():
+            if iff.get("k") != "If" or not fx.enclosing_loops(iff):
+                continue
+            # then-branch: m = v and idx = <something>
+            asg = [n for n in walk(iff.get("then")) if n.get("k") == "Assign" and n.get("op") == "=" and strip(n["lhs"]).get("k") == "Ref" and strip(n["lhs"]).get("dk") == "local"]
+            conj = []
+            todo = [strip(iff["c"])]
+            while todo:
+                c = todo.pop()
+                if c.get("k") == "Bin" and c.get("op") == "&&":
+                    todo += [strip(c["lhs"]), strip(c["rhs"])]
+                else:
+                    conj.append(c)
+            for c in conj:
+                if c.get("k") != "Bin" or c.get("op") not in ("<", ">", "<=", ">="):
+                    continue
+                for v_, m_, op in ((c["lhs"], c["rhs"], c["op"]), (c["rhs"], c["lhs"], {"<": ">", ">": "<", "<=": ">=", ">=": "<="}[c["op"]])):
+                    m0 = strip(m_)
+                    if op not in ("<", "<=") or m0.get("k") != "Ref" or m0.get("dk") != "local":
+                        continue
+                    upd = [a for a in asg if strip(a["lhs"]).get("d") == m0["d"] and render(res(a["rhs"])) == render(res(v_))]
+                    if not upd:
+                        continue
+                    V = res(v_)
+                    if not (V.get("k") == "MCall" and V.get("n") == "degree" and len(V.get("a", [])) == 1 and this_field(V.get("obj"))):
+                        continue            # searched quantity not modelled
+                    G = this_field(V["obj"])
+                    mvar = next((x for x in f.nodes() if x.get("k") == "Var" and x.get("d") == m0["d"]), None)
+                    others = [a for a in f.nodes() if a.get("k") == "Assign" and strip(a["lhs"]).get("d") == m0["d"] and not any(a is u for u in upd)]
+                    idxs = [strip(a["lhs"])["d"] for a in asg if strip(a["lhs"]).get("d") != m0["d"]]
+                    asserted = [n for n in f.nodes() if n.get("k") == "Call" and n.get("callee") == "FEAT::assertion" and n.get("a") and
+                                any(x.get("k") == "Ref" and x.get("d") in idxs for x in walk(n["a"][0]))]
+                    if mvar is None or mvar.get("init") is None or not asserted:
+                        continue            # no assertion depends on the search result
+                    key = "%s/min-search(%s.degree)" % (f.name, G)
+                    if others:
+                        ck.incomplete(R, "%s: the bound `%s` is assigned outside the search as well" % (key, m0["n"]))
+                        continue
+                    strict = op == "<"
+                    I = res(mvar["init"])
+                    plus = 0
+                    if I.get("k") == "Bin" and I.get("op") == "+":
+                        for x_, c_ in ((I["lhs"], I["rhs"]), (I["rhs"], I["lhs"])):
+                            if strip(c_).get("k") == "Int" and int(strip(c_)["v"]) >= 1:
+                                I, plus = res(x_), int(strip(c_)["v"])
+                                break
+                    verdict, why = None, ""
+                    onG = I.get("k") == "MCall" and this_field(I.get("obj")) == G and not I.get("a")
+                    if (I.get("k") == "Un" and I.get("op") == "~") or "numeric_limits" in (I.get("callee") or ""):
+                        verdict, why = True, "the largest value of the type"
+                    elif onG and I.get("n") == "degree":
+                        verdict, why = (plus >= 1 or not strict), "%s.degree()%s: the maximum degree is attained by some node" % (G, " + %d" % plus if plus else "")
+                    elif onG and I.get("n") in ("get_num_nodes_image", "get_num_nodes_domain"):
+                        if I["n"] == "get_num_nodes_domain" and not square(G):
+                            ck.incomplete(R, "%s: the initial bound uses the number of domain nodes of %s; that the graph is square (image = domain) could not be established" % (key, G))
+                            continue
+                        verdict, why = (plus >= 1 or not strict), "number of nodes of %s%s: a node adjacent to all nodes (a single cell: the neighbour graph contains the cell itself) has that degree" % (G, " + %d" % plus if plus else "")
+                    if verdict is None:
+                        ck.incomplete(R, "%s: initial bound `%s` of the minimum search is not a form whose relation to %s.degree(j) is modelled" % (key, render(mvar["init"]), G))
+                        continue
+                    ck.ob(R, key, verdict,
+                          "the search takes a node only if its degree is %s the bound, which starts at `%s` (%s): greater than every degree, so the first unprocessed node is always a candidate and `%s` holds after the search" % (
+                              "<" if strict else "<=", render(mvar["init"]), why, render(asserted[0]["a"][0])) if verdict
+                          else "the search takes a node only if its degree is strictly smaller than the bound, which starts at `%s` (%s): a node whose degree equals the bound can never be chosen. When only such nodes are unprocessed (one cell, two adjacent cells, a 2x2 block, isolated cells) the result keeps its sentinel and XASSERT(%s) at line %s aborts compile() instead of falling back to fewer workers" % (
+                              render(mvar["init"]), why, render(asserted[0]["a"][0]), asserted[0].get("l")),
+                          f.file, mvar.get("l"))
+
+
 # -------------------------------------------------------------------------------------------------
 # driver
 # -------------------------------------------------------------------------------------------------
@@ -3577,6 +3683,7 @@ RULES = [
     ("E8.clear-resets-appended", "every member container that the compile() call graph fills by appending (push_back/emplace_back) without resetting it first is reset (clear(), assignment, resize(0), swap with an empty temporary) on every path through clear(). Broken for: clear(); set_max_worker_threads(other); compile_all_elements() on one assembler - the workers index stale/too long layer or colour tables (cells never assembled, out-of-range reads).", 3),
     ("E8.clear-keeps-size", "members that the constructor sizes by the number of mesh cells and that add_element/add_mesh_part/compile subscript with mesh cell numbers are not left empty by clear(). Broken for: re-use of an assembler for another cell subset (clear(); add_element(); compile()): std::out_of_range abort.", 1),
     ("E13.thread-count-min-layers", "layered strategies: the worker count the thread-layer builder chooses satisfies c * workers <= number of layers for every admissible (requested workers, size of the layer-offset table), where c is the minimum number of layers per thread the builder's forward sweep enforces (T(i+1) = T(i) + c) and the number of layers is the value the builder asserts T.back() to equal (offset table size - 1) - bounded enumeration under the guards dominating the assertion. Broken for: small / odd layer counts with enough requested workers: XASSERT(thread_layers.back() == num_layers) aborts compile().", 1),
+    ("E13.min-search-initial-bound", "set-up functions: a strict-minimum search `if(G.degree(j) < m && ...) { idx = j; m = deg; }` whose result an XASSERT depends on starts from a bound strictly greater than every degree (number of nodes + c, maximum degree + c with c >= 1, or the largest value of the type); a bound that a degree can attain (G.degree(), the number of nodes) is a violation, any other form is incomplete. Broken for: element sets in which every unprocessed cell has the maximum degree (single cell, two adjacent cells, 2x2 block, isolated cells): XASSERT(root < num_elems) aborts compile().", 1),
     ("E13.worker-count-wrap", "work-distribution builders: a loop whose start value subtracts from the unsigned worker count cannot wrap for any admissible count the preceding assignment can produce (bounded enumeration, dominating guards respected). Broken for: meshes so small that zero workers result.", 1),
 ]
 
@@ -3655,6 +3762,7 @@ def run(tier):
                 rule_cell_index_kind(ck, facts, ef.pop())
             else:
                 ck.incomplete("E2.cell-index-kind", "element index member not identified")
+            rule_min_search(ck, facts)
             if len(lf) == 1:
                 rule_layer_sort(ck, facts, lf.pop())
             else:
